@@ -84,6 +84,7 @@ def check_bm_long(ctx, k, opaque=False):
             ctx.require(q, z3.And(ok_body, z3.Not(fits)), "the call aborts only when the callback's result is not representable in the guest type")
     ctx.only(paths, "ret", "abort")
     ctx.expect(paths, ret=1, abort=1)
+    ctx.validate_paths(paths, 8)
     if nb == 0:
         ctx.inconclusive.append("no path reached a callback body")
 
@@ -159,6 +160,7 @@ def check_nested(ctx):
                                       "visit to another sandbox) and the right argument")
     ctx.only(paths, "ret")
     ctx.expect(paths, ret=5)
+    ctx.validate_paths(paths, 5)
 
 
 NOOP = ('#define RLBOX_USE_STATIC_CALLS() rlbox_noop_sandbox_lookup_symbol\n#define BACKEND_HEADER "C13_noop.hpp"\n'
@@ -170,11 +172,11 @@ NOOP_ETLS = ('#define RLBOX_EMBEDDER_PROVIDES_TLS_STATIC_VARIABLES\n' + NOOP)
 
 def jobs(tier, seed):
     src = '#include "C12_bm.inc"\n'
-    out = [Job("C12_bm_long", src, [dict(name="BM long(long) callbacks", fn=check_bm_long, kw=dict(k="k_bm_cb_long"), unwind=200)], native=False),
+    out = [Job("C12_bm_long", src, [dict(name="BM long(long) callbacks", fn=check_bm_long, kw=dict(k="k_bm_cb_long"), unwind=200)]),
            Job("C12_bm_opaque", src, [dict(name="BM opaque callback", fn=check_bm_long, kw=dict(k="k_bm_cb_opaque", opaque=True), unwind=200)], native=False),
            Job("C12_bm_ptr", src, [dict(name="BM pointer callback", fn=check_bm_ptr, unwind=200)], native=False),
            Job("C12_bm_void", src, [dict(name="BM void callback", fn=check_bm_void, unwind=200)], native=False)]
-    out.append(Job("C12_noop_nested", NOOP + '#include "C12_nested.inc"\n', [dict(name="noop nested call trees", fn=check_nested, unwind=400)], native=False))
+    out.append(Job("C12_noop_nested", NOOP + '#include "C12_nested.inc"\n', [dict(name="noop nested call trees", fn=check_nested, unwind=400)]))
     out.append(Job("C12_noop_etls_nested", NOOP_ETLS + '#include "C12_nested.inc"\nRLBOX_NOOP_SANDBOX_STATIC_VARIABLES();\n',
                    [dict(name="noop (embedder TLS) nested call trees", fn=check_nested, unwind=400)], native=False))
     fl = ["-D_GLIBCXX_EXTERN_TEMPLATE=0"]
